@@ -145,6 +145,8 @@ class Leaves:
             pn, hn = GEN_SINKS[q]
             pts, hw = bound.get(pn), bound.get(hn)
             img = hw.of if isinstance(hw, Shape) else None
+            if isinstance(hw, Tup) and hw.elts and all(isinstance(x_, Shape) for x_ in hw.elts) and len({repr(x_.of) for x_ in hw.elts}) == 1:
+                img = hw.elts[0].of       # (h, w) unpacked from one image's shape and put together again
             if isinstance(hw, Mismatch):
                 # the size of an image that is in different frames on different paths: still no single frame
                 alts = tuple(a.of if isinstance(a, Shape) else a for a in hw.alts)
